@@ -44,6 +44,13 @@ class FailingRegressor(RegressorMixin, BaseEstimator):
         raise NotFittedError("not fitted")
 
 
+class FailingPartialFitRegressor(FailingRegressor):
+    """... that is an incremental learner: every partial_fit fails as well, the fall-back keeps the statistics of the labels."""
+
+    def partial_fit(self, X, y, sample_weight=None):
+        raise ValueError("cannot be fitted")
+
+
 class FailingClassifier(ClassifierMixin, BaseEstimator):
     def fit(self, X, y, sample_weight=None):
         raise ValueError("cannot be fitted")
@@ -57,6 +64,7 @@ class FailingClassifier(ClassifierMixin, BaseEstimator):
 
 LEARNERS = {
     "skr_fail": ("reg", lambda ml=np.nan: SklearnRegressor(FailingRegressor(), random_state=0, missing_label=ml)),
+    "skr_fail_pf": ("reg", lambda ml=np.nan: SklearnRegressor(FailingPartialFitRegressor(), random_state=0, missing_label=ml)),
     "skn_fail": ("preg", lambda ml=np.nan: SklearnNormalRegressor(FailingRegressor(), random_state=0, missing_label=ml)),
     "skc_fail": ("clf_proba", lambda ml=np.nan: SklearnClassifier(FailingClassifier(), classes=[0, 1, 2], random_state=0, missing_label=ml)),
     "sk_nb": ("clf", lambda ml=np.nan: SklearnClassifier(GaussianNB(var_smoothing=1e-3), classes=[0, 1, 2], random_state=0, missing_label=ml)),
